@@ -2,12 +2,14 @@
 \* namespaces, every reference assignment and enumeration order.
 CONSTANTS
   Atomic = TRUE
+  SingleInPlace = FALSE
   DropDetached = TRUE
   Namespace = {1, 2}
   M = 2
   MaxTs = 2
   Classes = {"ok", "badSig", "rejectLater"}
   MaxBad = 2
+  FullCauses = 1
   AllowDetached = FALSE
   Emit = FALSE
   EmitMod = 1
